@@ -324,7 +324,7 @@ class Runner:
             if mtree != itree:
                 chk.corr_break(f"{cell}/tree", f"class tree: model {mtree} vs implementation {itree}", payload)
                 continue
-            if exact and "Mul(*)" not in itree and parts[4] != "-":
+            if (exact or (isinstance(payload, dict) and payload.get("mexact"))) and "Mul(*)" not in itree and parts[4] != "-":
                 rows = [[float(__import__('fractions').Fraction(x)) for x in r.split(",")] for r in parts[4].split(";")]
                 mt = torch.tensor(rows, dtype=idense.dtype)
                 tol = (1e-9 if idense.dtype == torch.float64 else 1e-4) * (1 if 'Toeplitz' not in itree else 1e3)
@@ -687,11 +687,13 @@ def unary_cases(it, batch, rng, dtype):
         cases.append(("add_jitter-default", lambda o: o.add_jitter(), lambda d: d + 1e-3 * torch.eye(n, dtype=dtype), None))
         if it.psd:
             lr = C.ri(rng, (*batch, n, 2), -2, 2, dtype)
-            cases.append(("add_low_rank", lambda o: o.add_low_rank(lr.clone()), lambda d: d + lr @ lr.mT, None))
+            cases.append(("add_low_rank", lambda o: o.add_low_rank(lr.clone()), lambda d: d + lr @ lr.mT,
+                          lambda e: f"alr 2 {mat(b0(lr, nb))} {e}"))
             cross = C.ri(rng, (*batch, 2, n), -1, 1, dtype)
             new = cross @ cross.mT + 30 * torch.eye(2, dtype=dtype)
             cases.append(("cat_rows", lambda o: o.cat_rows(cross.clone(), new.clone()),
-                          lambda d: torch.cat([torch.cat([d, cross.mT], -1), torch.cat([cross, new], -1)], -2), None))
+                          lambda d: torch.cat([torch.cat([d, cross.mT], -1), torch.cat([cross, new], -1)], -2),
+                          lambda e: f"catrows {opq_id('CatLinearOperator')} 2 {mat(b0(cross, nb))} {mat(b0(new, nb))} {e}"))
             if dtype == torch.float64:
                 # two-step programs: root-based operations on the results of cat_rows / add_low_rank (they read the roots these
                 # methods cache); cross terms of ordinary magnitude, Schur complement = identity
@@ -712,6 +714,10 @@ def unary_cases(it, batch, rng, dtype):
                 blkl = lambda m: torch.cat([torch.cat([m, crl.mT], -1), torch.cat([crl, nwl(m)], -1)], -2)
                 step1 = {"cat_rows": (lambda o: o.cat_rows(cr.clone(), nw.clone()), blk, Rk, lr2),
                          "add_low_rank": (lambda o: o.add_low_rank(lr.clone()), lambda d: d + lr @ lr.mT, Rn, lr[..., :1])}
+                # the root that cat_rows caches for its result (transplanted through the Schur complement, here = I so that the block
+                # matrix is positive definite whatever the operand's conditioning) denotes the result: instance of `catRows_root_identity`
+                cases.append(("cat_rows-root", lambda o: (lambda z: z @ z.mT)(o.cat_rows(cr.clone(), nw.clone()).root_decomposition().root.to_dense()),
+                              blk, None))
                 for s1, (f1_, d1_, rk, l2) in step1.items():
                     cases.append((f"{s1}-ord", f1_, d1_, None))
                     cases.append((f"{s1}>mulroot", lambda o, f1_=f1_, rk=rk: f1_(o) * RootLinearOperator(rk.clone()),
@@ -756,17 +762,25 @@ def run_unary(R, chk, thorough):
                     if name.startswith(("prod", "add_low_rank", "cat_rows")) or ">" in name:
                         exact = False
                     R.record(cell, desc, lambda it=it, fi=fi: fi(it.build()), lambda it=it, fs=fs: fs(it.dense),
-                             {"part": "unary", "inst": it.name, "batch": list(batch), "case": name, "dtype": str(dtype)}, exact=exact, model=line)
+                             {"part": "unary", "inst": it.name, "batch": list(batch), "case": name, "dtype": str(dtype),
+                              "mexact": name in ("add_low_rank", "cat_rows")}, exact=exact, model=line)
             # cat of two operators along batch / row / column dimensions
             sq = [it for it in its if it.shape[-2:] == (SIZE["n"], SIZE["n"]) and "fft" not in it.tags][:12]
             for i, a in enumerate(sq):
                 b = sq[(i + 3) % len(sq)]
                 for dim in ([-1, -2] + ([0] if batch else [])):
                     cell = f"C02/unary/cat{dim}/{a.cname}/{b.cname}/b={len(batch)}/{str(dtype)[6:]}"
+                    cline = None
+                    if dim in (-1, -2):
+                        try:
+                            cline = f"cat {1 if dim == -2 else 0} {opq_id('CatLinearOperator')} {enc(a.build())} {enc(b.build())}"
+                        except Exception:
+                            cline = None
                     R.record(cell, f"cat([{a.name},{b.name}],{dim}) {list(batch)} {dtype}",
                              lambda a=a, b=b, dim=dim: lo_cat([a.build(), b.build()], dim=dim),
                              lambda a=a, b=b, dim=dim: torch.cat([a.dense, b.dense], dim=dim),
-                             {"part": "cat", "a": a.name, "b": b.name, "dim": dim, "batch": list(batch), "dtype": str(dtype)})
+                             {"part": "cat", "a": a.name, "b": b.name, "dim": dim, "batch": list(batch), "dtype": str(dtype)},
+                             exact=a.exact and b.exact, model=cline)
 
 
 
@@ -1268,6 +1282,12 @@ def shrink_prog(p, leaves, n, dtype, batch, etype):
 
 
 # ----------------------------------------------------------------------------------------------- entry points
+def run_batchm_part(R, chk, thorough):
+    """Batched Lean model (LinOp/C02/Batch.lean, DriverB) vs the library: see c02_batch.py."""
+    from . import c02_batch
+    c02_batch.run_batchm(chk, thorough)
+
+
 def translator_checks(chk):
     classes, ladders = c02_dispatch.generate()
     for b in c02_dispatch.runtime_crosscheck(classes):
@@ -1293,8 +1313,8 @@ def run(chk):
     chk.prove("LinOp.Properties.C02", ["LinOp/C02", "LinOp/Generated/C02Table.lean", "LinOp/Core/Parse.lean", "LinOp/Core/Basic.lean",
                                        "LinOp/Core/Bridge.lean"])
     R = Runner(chk)
-    parts = os.environ.get("C02_PARTS", "pairs,scalars,unary,size1,batch3,mixed,reuse,programs").split(",")
-    for name, fn in (("pairs", run_pairs), ("scalars", run_scalars), ("unary", run_unary), ("size1", run_size1), ("batch3", run_batch3), ("mixed", run_mixed), ("reuse", run_reuse), ("programs", run_programs)):
+    parts = os.environ.get("C02_PARTS", "pairs,scalars,unary,size1,batch3,mixed,reuse,programs,batchm").split(",")
+    for name, fn in (("pairs", run_pairs), ("scalars", run_scalars), ("unary", run_unary), ("size1", run_size1), ("batch3", run_batch3), ("mixed", run_mixed), ("reuse", run_reuse), ("programs", run_programs), ("batchm", run_batchm_part)):
         t = time.time()
         if name in parts:
             fn(R, chk, thorough)
@@ -1327,6 +1347,8 @@ def replay(chk, payload):
         run_reuse(R, chk, thorough)
     elif part == "mixed":
         run_mixed(R, chk, thorough)
+    elif part == "batchm":
+        run_batchm_part(R, chk, thorough)
     elif part == "prog":
         run_programs(R, chk, thorough, progs=[(tuple(pl["batch"]), eval(pl["dtype"]), pl["pseed"], pl["depth"])])
     else:
